@@ -13,7 +13,10 @@ case = {
   "refit":  bool;  "fitfh": None | [...]
   "ops":    [["F"], ["p", fh|None], ["c"], ["u", k, up], ["s", k, fh, up], ["U", k, up]]   F = tuner.fit(y, fh=fitfh);
             u/s/U = update / update_predict_single / update_predict with the next k observations,
-            up = update_params: true | false | null (left to the callee's default)
+            up = update_params: true | false | null (left to the callee's default); optional trailing  shape, j :
+            fresh | re (last j known observations re-stated + k new) | ov (same, known ones REVISED) |
+            past (j revised observations ending before the cutoff) | empty   (see `batch`)
+            ["m"] = probe of the series the (best) forecaster remembers
   "tab":    {"a,b": [score per fold (float | None = NaN), ...]}   chosen scores of the score-controlled forecasters
 }
 The driver line carries, per distinct parameter set: the per-fold scores of an INDEPENDENT evaluate() run of a
@@ -390,6 +393,29 @@ def _upd(up, dflt):
     return {"update_params": bool(up)}
 
 
+def batch(Y, ptr, k, shape="fresh", j=0):
+    """the series handed to an update-type call, and the new position of the next unseen observation.
+    fresh: the next k observations | re: the last j known ones re-stated + k new | ov: the same with REVISED values for
+    the known ones | past: j revised observations ending two steps before the newest known one | empty"""
+    if shape in (None, "fresh"):
+        return Y.iloc[ptr:ptr + k], ptr + k
+    if shape == "empty":
+        return Y.iloc[0:0], ptr
+    if shape in ("re", "ov"):
+        start = max(0, ptr - j)
+        b = Y.iloc[start:ptr + k].copy()
+        if shape == "ov":
+            b.iloc[:ptr - start] = b.iloc[:ptr - start].to_numpy() + 8.0 + np.arange(ptr - start) / 4.0
+        return b, ptr + k
+    if shape == "past":
+        end = max(1, ptr - 2)
+        start = max(0, end - max(1, j))
+        b = Y.iloc[start:end].copy()
+        b.iloc[:] = b.to_numpy() - 6.0 + np.arange(end - start) / 2.0
+        return b, ptr
+    raise ValueError(shape)
+
+
 def drive(case, kind, y, Y, obj=None, params=None, dflt=None):
     """the op sequence on the tuner (`kind="tuner"`), on a forecaster constructed directly with `params`
     and fitted on all of y at every F (`"ref"`), or on such a forecaster never fitted (`"unfit"`).
@@ -415,17 +441,25 @@ def drive(case, kind, y, Y, obj=None, params=None, dflt=None):
             outs.append(tryc(lambda: show_series(obj.predict(op[1]))))
         elif o == "c":
             outs.append(tryc(lambda: show_cut(obj.cutoff)))
+        elif o == "m":
+            # probe of the data the (best) forecaster remembers, behind the real guard of a tuner method
+            def mem():
+                if kind == "tuner":
+                    obj.check_is_fitted("remembered data")
+                    yy = obj.best_forecaster_._y
+                else:
+                    obj.check_is_fitted()
+                    yy = obj._y
+                return show_series(yy)
+            outs.append(tryc(mem))
         elif o == "u":
-            chunk = Y.iloc[ptr:ptr + op[1]]
-            ptr += op[1]
+            chunk, ptr = batch(Y, ptr, op[1], *op[3:5])
             outs.append(tryc(lambda: "self" if obj.update(chunk, **_upd(op[2], dflt)) is obj else "other"))
         elif o == "s":
-            chunk = Y.iloc[ptr:ptr + op[1]]
-            ptr += op[1]
+            chunk, ptr = batch(Y, ptr, op[1], *op[4:6])
             outs.append(tryc(lambda: show_series(obj.update_predict_single(chunk, fh=op[2], **_upd(op[3], dflt)))))
         elif o == "U":
-            chunk = Y.iloc[ptr:ptr + op[1]]
-            ptr += op[1]
+            chunk, ptr = batch(Y, ptr, op[1], *op[3:5])
             outs.append(tryc(lambda: show_series(obj.update_predict(chunk, **_upd(op[2], dflt)))))
         else:
             raise ValueError(op)
@@ -720,7 +754,7 @@ def oracle(case, out):
                 break
         else:
             if outs[i] != "E:notfitted":
-                fails.append(("norefit:%s-no-NotFittedError" % {"c": "cutoff", "p": "predict", "u": "update", "s": "update_predict_single", "U": "update_predict"}[o],
+                fails.append(("norefit:%s-no-NotFittedError" % {"c": "cutoff", "p": "predict", "u": "update", "s": "update_predict_single", "U": "update_predict", "m": "remembered-data"}[o],
                               "refit=False, op %d %r answered %s" % (i, ops[i], outs[i][:120])))
     return fails
 
@@ -796,7 +830,9 @@ def _rand_ops(rng, refit_focus=True):
             ops.append(["c"])
         elif r < 0.7 and budget >= 3:
             k = rng.randrange(1, 4); budget -= k
-            ops.append(["u", k, up])
+            ops.append(["u", k, up] + ([rng.choice(SHAPES), rng.randrange(1, 4)] if rng.random() < 0.25 else []))
+            if rng.random() < 0.3:
+                ops.append(["m"])
         elif r < 0.82 and budget >= 3:
             k = rng.randrange(1, 4); budget -= k
             ops.append(["s", k, fh, up])
@@ -930,6 +966,47 @@ def _sampler_case(rng, mode):
     return case
 
 
+SHAPES = ["ov", "ov", "re", "past", "past", "empty", "fresh"]
+
+
+def _revision_case(rng):
+    """refit-delegation under update batches that are NOT plain fresh data (revised / re-stated overlap with the known
+    series, a block entirely before the cutoff, an empty block), with best candidates whose forecasts depend on the
+    remembered values (mean over a window, drift); cutoff, remembered data and forecasts are read after every op"""
+    fc = rng.choice(["naive", "naive", "naive", "ttfnaive", "muxreal", "score"])
+    n = rng.randrange(12, 20)
+    grid = {
+        "naive": [{"strategy": rng.choice([["mean"], ["drift"], ["mean", "drift"], ["mean", "last"]]),
+                   "window_length": rng.choice([[3], [4], [3, 5], [4, 6]])}],
+        "ttfnaive": [{"f__strategy": ["mean"], "f__window_length": rng.choice([[2], [4], [2, 4]]), "t__c": rng.choice([[0], [2], [0, 1]])}],
+        "muxreal": [{"selected_forecaster": rng.choice([["poly"], ["naive"], ["naive", "poly"]]), "naive__strategy": ["mean"],
+                     "poly__degree": [1]}],
+        "score": [{"a": [1, 2], "b": [0, 1]}],
+    }[fc]
+    cv = {"k": rng.choice("se"), "fh": rng.choice([[1], [1, 2]]), "wl": 6, "step": rng.randrange(2, 4), "iw": None, "sww": True}
+    ops = [["F"]]
+    for _ in range(rng.randrange(1, 4)):
+        shape = rng.choice(SHAPES)
+        k = 0 if shape in ("past", "empty") else rng.randrange(1, 3)
+        j = rng.randrange(1, 5)
+        up = rng.choice([True, False, None])
+        r = rng.random()
+        if r < 0.6:
+            ops.append(["u", k, up, shape, j])
+        elif r < 0.85:
+            ops.append(["s", k, rng.choice([[1], [1, 2]]), up, shape, j])
+        else:
+            ops.append(["U", max(k, 2) if shape not in ("past", "empty") else 0, up, shape, max(j, 2)])
+        ops += [["c"], ["m"], ["p", [1, 2]]]
+    case = {"fc": fc, "search": "grid", "grid": grid, "cv": cv, "n": n, "origin": rng.choice([0, 3]), "yseed": rng.randrange(1000),
+            "strategy": "refit", "refit": rng.random() < 0.9, "fitfh": rng.choice([None, [1, 2]]), "ops": ops, "tab": {}}
+    if fc in CONTROLLED:
+        case["metric"], case["gib"] = "ctl", False
+    else:
+        case["metric"], case["gib"] = rng.choice([("mae", False), ("negmae", True)])
+    return case
+
+
 def _malformed(rng):
     base = _small_case([1.0, 0.0, 2.0], False, True, False)
     base["ops"] = [["F"], ["p", [1]], ["c"], ["u", 2, False]]
@@ -974,6 +1051,9 @@ def gen_cases(tier, rng):
     # (B') randomized search whose draw cannot be predicted (random_state None / RandomState instance) next to int seeds
     for i in range(18 if tier == "quick" else 150):
         cases.append(_sampler_case(rng, ["none", "inst", "int"][i % 3]))
+    # (B'') update batches that revise / re-state known data, lie before the cutoff or are empty
+    for _ in range(30 if tier == "quick" else 260):
+        cases.append(_revision_case(rng))
     # (C) malformed stream
     cases.extend(_malformed(rng))
     return cases
